@@ -61,6 +61,7 @@ class XTyper:
         self.bliss_sites: list[tuple] = []
         self.depth = 0
         self.counter = 0
+        self.guarded: list[tuple] = []      # (fi, If node, polarity, map type): early returns of a map whose values are attribute values
         self.vs_attrs: dict = {}            # igraph object name -> {attribute key: stored sequence type}; only for graphs built by hand
 
     def fresh(self, hint="g"):
@@ -132,6 +133,15 @@ class XTyper:
             e1, e2 = dict(env), dict(env)
             r1 = self.block(fi, st.body, e1)
             r2 = self.block(fi, st.orelse, e2)
+            # a branch that hands back the nodes' attribute values as the map (node -> its class number, ...): whether that is
+            # one-to-one depends on what the test establishes; it is looked at separately (see guarded_attribute_maps)
+            attr_valued = lambda r: r is not None and r[0] == "Map" and (r[2] == "COL" or (isinstance(r[2], tuple) and r[2][:1] == ("ATTR",)))
+            if attr_valued(r1) and not attr_valued(r2):
+                self.guarded.append((fi, st, True, r1))
+                r1 = None
+            elif attr_valued(r2) and not attr_valued(r1):
+                self.guarded.append((fi, st, False, r2))
+                r2 = None
             for k in set(e1) | set(e2):
                 a, b = e1.get(k), e2.get(k)
                 env[k] = a if a == b else (a if b is None else b if a is None else self.join(a, b))
@@ -365,6 +375,9 @@ class XTyper:
                 g, m = args[0], args[1] if len(args) > 1 else U("no mapping")
                 self.relabels.append((fi, e, g, m))
                 return ("Graph", self.fresh("rel"))
+            if q == "networkx.get_node_attributes" and len(args) >= 2 and args[0][0] == "Graph" and args[1][0] == "Key":
+                part = ctx.repo.const("tucan.graph_attributes", "PARTITION")
+                return ("Map", ("NX", args[0][1]), "COL" if args[1][1] == part else ("ATTR", args[1][1]), False, ("nodes", args[0][1]))
             if q in ("networkx.set_node_attributes",):
                 return ("Const", None)
             if q == "networkx.Graph":
@@ -569,6 +582,7 @@ def r_bliss(ctx) -> RuleResult:
                          extra={"igraph_version": ver, "convention": conv}))
         res.counts = {"bliss_sites": n_sites}
         return res
+    guarded_attribute_maps(ctx, T, res, "R-BLISS")
     if conv is None:
         res.notes.append(f"igraph {ver} is not in the convention table: only convention-free uses (permute_vertices) are accepted")
     # the canonical relabel
@@ -594,6 +608,99 @@ def r_bliss(ctx) -> RuleResult:
     return res
 
 
+def guarded_attribute_maps(ctx, T: "XTyper", res: RuleResult, rule_id: str):
+    """Early returns `if <test>: return {node: attribute value}` used as a relabelling.  The map is one-to-one only if the
+    test makes the attribute values pairwise distinct.  A way of satisfying the test (a disjunct) that reads neither the
+    attribute nor the number of nodes cannot do that: it is a violation.  Otherwise this analysis cannot tell."""
+    part = ctx.repo.const("tucan.graph_attributes", "PARTITION")
+
+    def reads_classes(fi, e, depth=0) -> bool:
+        for x in ast.walk(e):
+            if isinstance(x, ast.Name):
+                if try_const(ctx, fi, x, default=None) == part:
+                    return True
+                d = single_def(fi.node, x.id) if x.id not in params_of(fi.node) else None
+                if d is not None and depth < 4 and reads_classes(fi, d, depth + 1):
+                    return True
+            if isinstance(x, ast.Constant) and x.value == part:
+                return True
+            if isinstance(x, ast.Call):
+                if isinstance(x.func, ast.Attribute) and x.func.attr in ("number_of_nodes", "order", "nodes"):
+                    return True
+                if isinstance(x.func, ast.Name) and x.func.id == "len":
+                    return True
+                cs = ctx.cg.resolve_call(fi, x, ctx.cg.local_types(fi), set(params_of(fi.node)))
+                if cs.kind == "tucan" and depth < 4:
+                    tgt = cs.target
+                    for q in [tgt.fq] + list(ctx.cg.closure([tgt.fq])):
+                        f2 = ctx.cg.funcs[q]
+                        if any((isinstance(y, ast.Name) and try_const(ctx, f2, y, default=None) == part) or (isinstance(y, ast.Constant) and y.value == part)
+                               or (isinstance(y, ast.Call) and isinstance(y.func, ast.Attribute) and y.func.attr in ("number_of_nodes", "order")) for y in ast.walk(f2.node)):
+                            return True
+                elif cs.kind not in ("builtin", "ext", "method"):
+                    return True          # something this analysis does not follow: assume it may look at the classes
+            if isinstance(x, ast.Attribute) and x.attr == "nodes":
+                return True
+        return False
+
+    def disjuncts(fi, e, depth=0):
+        """[(function, expression)]: the test holds iff one of them holds"""
+        if isinstance(e, ast.BoolOp) and isinstance(e.op, ast.Or):
+            out = []
+            for v in e.values:
+                out += disjuncts(fi, v, depth)
+            return out
+        if isinstance(e, ast.Name) and e.id not in params_of(fi.node) and depth < 4:
+            d = single_def(fi.node, e.id)
+            if d is not None:
+                return disjuncts(fi, d, depth + 1)
+        if isinstance(e, ast.Call) and depth < 4:
+            cs = ctx.cg.resolve_call(fi, e, ctx.cg.local_types(fi), set(params_of(fi.node)))
+            if cs.kind == "tucan":
+                rets = [r for r in own_walk(cs.target.node) if isinstance(r, ast.Return) and r.value is not None]
+                if len(rets) == 1 and not any(isinstance(y, (ast.If, ast.For, ast.While, ast.Try)) for y in own_walk(cs.target.node)):
+                    return disjuncts(cs.target, rets[0].value, depth + 1)
+        return [(fi, e)]
+    def distinctness_test(fi, e) -> bool:
+        """len(set(<the attribute's values>)) == <number of nodes>: the values are pairwise distinct"""
+        if not (isinstance(e, ast.Compare) and len(e.ops) == 1 and isinstance(e.ops[0], ast.Eq)):
+            return False
+        for a, b in ((e.left, e.comparators[0]), (e.comparators[0], e.left)):
+            if isinstance(a, ast.Call) and isinstance(a.func, ast.Name) and a.func.id == "len" and len(a.args) == 1 and isinstance(a.args[0], ast.Call) \
+                    and isinstance(a.args[0].func, ast.Name) and a.args[0].func.id in ("set", "frozenset") and len(a.args[0].args) == 1:
+                T2 = XTyper(ctx, None, strict=False)
+                env = {p_: ("Graph", "m") for p_ in params_of(fi.node)[:1]}
+                try:
+                    for st_ in fi.node.body:
+                        if st_.lineno >= e.lineno:
+                            break
+                        T2.stmt(fi, st_, env)
+                    vals = T2.ev(fi, a.args[0].args[0], env)
+                except Exception:
+                    return False
+                n_ = T2.len_symbol(fi, b, env)
+                if vals[0] == "Seq" and vals[2] == m_val and vals[4] is not None and n_ == vals[4]:
+                    return True
+        return False
+    for fi, ifnode, pol, m in T.guarded:
+        m_val = m[2]
+        if pol and all(distinctness_test(f2, d) for f2, d in disjuncts(fi, ifnode.test)):
+            res.inst(fi.fq, f"`if {short(ifnode.test, 50)}: return <node -> {fmt_space(m[2])}>`", "ok", detail="the test says the values are pairwise distinct (as many different values as nodes)")
+            continue
+        if not pol:
+            raise AnalysisError(f"{rule_id}: the map of attribute values returned at {fi.loc(ifnode)} is guarded by the negation of `{short(ifnode.test, 50)}`; this analysis does not read that")
+        blind = [(f2, d) for f2, d in disjuncts(fi, ifnode.test) if not reads_classes(f2, d)]
+        if blind:
+            f2, d = blind[0]
+            res.inst(fi.fq, f"`if {short(ifnode.test, 50)}: return <node -> {fmt_space(m[2])}>`", "fail")
+            res.fail(Finding(rule_id, fi.module.rel, fi.qualname, norm(ifnode.test),
+                             f"when `{short(d, 60)}` holds the nodes' {'partition numbers' if m[2] == 'COL' else 'attribute values'} are handed out as the new labels; that test looks at neither the classes nor the "
+                             "number of atoms, so atoms that share a class get the same label and nx.relabel_nodes merges them (an atom and its data disappear)", line=ifnode.lineno))
+        else:
+            raise AnalysisError(f"{rule_id}: at {fi.loc(ifnode)} the nodes' attribute values are used as new labels when `{short(ifnode.test, 50)}` holds; "
+                                "whether that test makes them pairwise distinct is beyond this analysis")
+
+
 # --------------------------------------------------------------------------- R-BIJ
 
 
@@ -607,12 +714,16 @@ def r_bij(ctx) -> RuleResult:
     if not sites_:
         raise AnalysisError("R-BIJ: no relabel_nodes site (anchor vanished)")
     pub = {f.fq for f in fis}
+    guarded_done: set = set()
 
     def type_from(fn_, node):
         """[(graph type, map type)] of the relabel call `node` when fn_ is typed with its first parameter as a graph"""
         T = XTyper(ctx, conv, strict=False)
         params = params_of(fn_.node)
         T.call(fn_, [("Graph", "m")] + [U("param")] * (len(params) - 1))
+        if T.guarded and id(node) not in guarded_done:
+            guarded_done.add(id(node))
+            guarded_attribute_maps(ctx, T, res, "R-BIJ")
         return [(g, m) for f, n, g, m in T.relabels if n is node]
 
     def good(g, m):
